@@ -27,7 +27,11 @@ PROFILES = {
     "C15": dict(peers=[0, 3, 5, 6, 8], reup=True, metrics=True, query_ops=False, reload=True),
     # C13: the configuration is reloaded under traffic; sessions and RIB contents must survive, later routers must be served
     # (variants = reloads that change the bmp unit's router_id_template; V k reads which template labels a router's series)
-    "C13": dict(peers=pipegen.DISTINCT_PEERS, reup=False, metrics=False, query_ops=True, reload=True, reload_pc=100, variants=True),
+    # ... and, in 40 % of the cases, a Roto script: named at start-up (F), edited / renamed / removed (W) and a second RIB unit
+    # added / removed / re-typed (Y) before a reload; P asks the second unit
+    "C13": dict(peers=pipegen.DISTINCT_PEERS, reup=False, metrics=False, query_ops=True, reload=True, reload_pc=100, variants=True, scripts=40),
+    # C10: which script a unit's rib-in-pre filter comes from: every case has a script story (F / W / Y / P around reloads)
+    "C10": dict(peers=pipegen.DISTINCT_PEERS, reup=False, metrics=False, query_ops=True, reload=False, scripts=100),
     # C14: routers come back, also after the listener was re-bound; G k = how many ingress ids router k has been given
     "C14": dict(peers=pipegen.DISTINCT_PEERS[:3], reup=True, metrics=False, query_ops=False, reload=True, reload_pc=60, ids=True),
 }
@@ -82,6 +86,7 @@ CORPUS = {
         "L 1;C 0;I 0;V 0;L 2;C 1;I 1;V 1;V 0",
         "C 0;I 0;L 2;C 1;I 1;U 1 5 0;R 1 5 0 1 1 0 -;V 1;V 0;Q 0 1",
     ],
+    "C10": [],   # = SCRIPT_CORPUS, below
     "C14": [
         # a router that comes back is given the id it had - also after the listener was re-bound (seeded C14-3: the unit
         # re-registered its own id on every bind, so the lookup by (parent, address) missed)
@@ -90,6 +95,70 @@ CORPUS = {
         "C 0;C 1;I 0;I 1;G 0;G 1;L;X 1;X 0;H;C 1;C 0;G 0;G 1;L;X 0;C 0;G 0",
     ],
 }
+
+
+# Roto script of the configuration: F s = start-up script, W s [1] = edit (in place / under a new name; 0 = removed), Y y = rib2
+# absent / rib / another type, P = query of rib2. Script s (1..8) rejects prefix s at rib-in-pre, 9 has no rib-in-pre filter.
+SCRIPT_CORPUS = [
+    # seeded C10-2 (compile_roto_script returned early once a script was compiled): a unit added by a reload must filter with the
+    # script the RELOADED configuration names - edited in place ...
+    "F 1;C 0;I 0;U 0 0 0;R 0 0 0 1 1 0 -;W 2;Y 1;H;R 0 0 0 1 1,2,3 0 -;Q 0 1;Q 0 2;Q 0 3;P 0 1;P 0 2;P 0 3",
+    # ... or under another file name ...
+    "F 1;C 0;I 0;U 0 0 0;W 2 1;Y 1;H;R 0 0 0 1 1,2,3 0 -;Q 0 1;Q 0 2;P 0 1;P 0 2",
+    # ... or a script that has no rib-in-pre filter any more: the new unit accepts everything
+    "F 1;C 0;I 0;U 0 0 0;W 9;Y 1;H;R 0 0 0 1 1,2,3 0 -;Q 0 1;P 0 1;P 0 2",
+    # ... also when the unit appears by a change of type (terminated and started) and the listener moves in the same reload
+    "F 1;Y 2;H;C 0;I 0;U 0 0 0;R 0 0 0 1 1,2,3 0 -;P 0 2;W 2;Y 1;L;P 0 2;R 0 0 0 2 2,3,4 0 -;P 0 1;P 0 2;P 0 3;P 0 4;Q 0 4;X 0;P 0 3;Q 0 3",
+    # fixed (C13-script-removed): roto_script taken out of the configuration - a unit started by that reload has no filter
+    "F 1;C 0;I 0;U 0 0 0;W 0;Y 1;H;R 0 0 0 1 1,2,3 0 -;Q 0 1;Q 0 2;P 0 1;P 0 2",
+    # no script at start-up, one named by the reload: the unit that runs since start-up stays unfiltered, the new one filters
+    "C 0;I 0;U 0 0 0;W 2;Y 1;H;R 0 0 0 1 1,2,3 0 -;Q 0 2;P 0 1;P 0 2;P 0 3",
+    # running units keep filter and RIB contents over edits and reloads (what the code does: design-notes/E2E.md O6); a unit that is
+    # removed and added again starts empty with the script of the reload that adds it
+    "F 1;C 0;I 0;U 0 0 0;Y 1;H;R 0 0 0 1 1,2,3 0 -;P 0 2;W 2;H;H 1;L;R 0 0 0 2 4 0 -;P 0 1;P 0 2;P 0 3;P 0 4;Q 0 4",
+    "F 1;C 0;I 0;U 0 0 0;Y 1;H;R 0 0 0 1 1,2,3 0 -;P 0 2;W 2;Y 0;H;P 0 2;Y 1;H;P 0 2;P 0 3;R 0 0 0 2 2,3,4 0 -;P 0 2;P 0 3;P 0 4;Q 0 4",
+    "F 1;C 0;I 0;U 0 0 0;Y 1;H;R 0 0 0 1 1,2,3 0 -;P 0 2;W 2;Y 2;H;P 0 2;Y 1;H;P 0 2;P 0 3;R 0 0 0 2 2,3,4 0 -;P 0 2;P 0 3;P 0 4;Q 0 4",
+    # withdrawals and a lost connection reach both units; a rejected prefix stays out of the filtered unit only
+    "F 3;C 0;C 1;I 0;I 1;U 0 0 0;U 1 5 0;Y 1;W 4;H;R 0 0 0 1 3,4,5 0 -;R 1 5 0 2 3,4 0 -;R 0 0 0 3 - 0 5;X 1;Q 0 3;Q 0 4;Q 0 5;P 0 3;P 0 4;P 0 5",
+]
+CORPUS["C10"] = SCRIPT_CORPUS
+CORPUS["C13"] = CORPUS["C13"] + SCRIPT_CORPUS + [
+    # fixed (C13-reload-wedge): with a router connected, the sixth reload wedged the bmp unit's gate (the router handler kept a gate
+    # clone whose 16-command queue nobody read): the rib unit could not subscribe again, later routes never reached the RIB
+    "C 0;I 0;U 0 0 0;H;H;H;H;H;H;R 0 0 0 1 1 0 -;Q 0 1",
+    "C 0;I 0;U 0 0 0;H;H;H;H;H;H;H;R 0 0 0 1 1 0 -;Q 0 1;C 1;I 1;U 1 5 0;H;H;R 1 5 0 2 2 0 -;Q 0 2",
+]
+
+
+def script_story(rng, ops):
+    """Weaves a script story into a case: a start-up script, then 1-2 reloads preceded by edits of the script and / or of
+    [units.rib2]; every Q gets a P next to it, and at the end both units are asked about the prefixes scripts may reject."""
+    pick = lambda: rng.weighted([(1, 16), (2, 16), (3, 16), (4, 12), (5, 10), (6, 10), (9, 10), (0, 10)])
+    out = list(ops)
+    for _ in range(rng.range(1, 2)):
+        block = []
+        if rng.chance(75):
+            block.append(f"W {pick()}" + (" 1" if rng.chance(35) else ""))
+        if rng.chance(75):
+            block.append(f"Y {rng.weighted([(1, 70), (0, 15), (2, 15)])}")
+        block.append(rng.choice(["H", "H", "L"]))
+        at = rng.below(len(out) + 1)
+        out[at:at] = block
+    res = []
+    for o in out:
+        res.append(o)
+        if o.startswith("Q "):
+            res.append("P" + o[1:])
+    if rng.chance(70):
+        s0 = rng.weighted([(1, 20), (2, 20), (3, 20), (4, 15), (5, 10), (6, 10), (9, 5)])
+        res.insert(0, f"F {s0}")
+    asked = []
+    for _ in range(rng.range(2, 4)):
+        p = 1 + rng.below(6)
+        if p not in asked:
+            asked.append(p)
+            res += [f"Q 0 {p}", f"P 0 {p}"]
+    return res
 
 
 def e2e_engine(prop):
@@ -119,6 +188,8 @@ def e2e_engine(prop):
                 kinds = ["L", "H", "H"] if not pr.get("variants") else ["L", "H", "H 1", "H 2", "L 1", "L 2", "H 0", "L 0"]
                 for _ in range(rng.range(1, 3 if pr.get("variants") else 2)):
                     out.insert(rng.below(len(out) + 1), rng.choice(kinds))
+            if pr.get("scripts") and rng.chance(pr["scripts"]):
+                out = script_story(rng, out)
             if pr.get("variants") or pr.get("ids"):
                 # read the label / the id count of every router after each of its Initiation messages, after reloads and at the end
                 tok = "V" if pr.get("variants") else "G"
@@ -140,6 +211,8 @@ def e2e_engine(prop):
     def nontrivial(case, out):
         t = out.split()
         if any(x.startswith("q:") and ("," in x or "=W" in x) for x in t):
+            return True
+        if any(x.startswith("p:") and x not in ("p:", "p:-") for x in t):
             return True
         if any(x.startswith("n:") and not x.endswith(",0") for x in t):
             return True
@@ -175,6 +248,22 @@ def e2e_engine(prop):
             ks.append("query-multi-peer")
         if any(x.startswith("m:") for x in t):
             ks.append("metrics-read")
+        names = [o.split()[0] for o in ops if o.split()]
+        if "F" in names[:1]:
+            ks.append("script-at-startup")
+        if "W" in names:
+            ks.append("script-edited")
+        if any(o.split()[0] == "W" and o.split()[1] == "0" for o in ops if o.split()):
+            ks.append("script-removed")
+        if any(x.startswith("p:") and x != "p:-" for x in t):
+            ks.append("second-rib-answers")
+        if any(o.split()[:2] == ["Y", "2"] for o in ops if o.split()):
+            ks.append("second-unit-retyped")
+        # the same prefix asked of both units, one after the other, with different answers: a filter (or the time of spawn) shows
+        for a, b, oa, ob in (zip(t, t[1:], ops, ops[1:]) if len(t) == len(ops) else []):
+            if a.startswith("q:") and b.startswith("p:") and b != "p:-" and oa[1:] == ob[1:] and a[2:] != b[2:]:
+                ks.append("units-answer-differently")
+                break
         return sorted(set(ks))
 
     return {"name": "e2e", "gen": gen, "corpus": lambda: list(CORPUS[prop]), "nontrivial": nontrivial, "classify": classify,
